@@ -281,7 +281,7 @@ class ChargeInfo:
         """
         if charges is None:
             return np.zeros((self.qnumber,), dtype=QTYPE)
-        charges = np.asarray(charges, dtype=QTYPE)
+        charges = np.array(charges, dtype=QTYPE)  # copy: don't modify the argument
         charges[..., self._mask] = np.mod(charges[..., self._mask], self._mod_masked)
         return charges
 
